@@ -84,4 +84,26 @@ CHECKS = {
               'Decoding of the UDH/SAR fields themselves belongs to C03/C04.'),
         note=COMMON_NOTE + 'A whole _handle_request is one atomic step here; interleaving of the receiver with other tasks is the session model. Messages are abstracted to the fields the correlation logic reads.',
         technique='Lean 4 theorems (invariant by induction over arbitrary operation lists; sorted-permutation argument); differential correspondence through the real handler'),
+    'C13': dict(
+        text=('Proof (tier 1 + tier 2, atomic handlers). Props/C13.lean: the sequence generator stays in 1..0x7FFFFFFF from every '
+              'reachable state and any max-min+1 consecutive numbers are pairwise distinct, also across the wrap (closed form '
+              'min + (pos+i) mod N by induction); assert_valid_sequence accepts exactly that range; correlator get pops on '
+              'match (a duplicate response finds nothing), returns only what was stored under the same number; '
+              '_handle_response leaves unsolicited/duplicate/late responses unattributed, drops wrong-type responses, and '
+              'copies tracking fields only from the submit stored under exactly that number for submit_sm_resp/generic_nack. '
+              'Tied to sequence.py directly and to the real ESME._handle_response on histories with duplicates, unknown '
+              'numbers, wrong types and generic_nacks.'),
+        note=COMMON_NOTE + 'A whole _handle_response is one atomic step; that the number is assigned per request at send time (esme.py:380-385) and interleavings of senders are part of the session model (C15).',
+        technique='Lean 4 theorems (induction over generator calls; case analysis of the handler over the store); differential correspondence through the real handler'),
+    'C14': dict(
+        text=('Proof (tier 2, atomic correlator operations, virtual clock). Props/C14.lean: every send_error(TimeoutError) of a '
+              'sweep is produced by a stored request whose age strictly exceeds max_ttl_response (never early) and for an '
+              'unsegmented request reports exactly that request; after any sweep every surviving request is within its ttl, '
+              'put performs the sweep first and reports each overdue request still stored (by the next request, probes '
+              'included); an overdue request does not survive the sweep and nothing re-inserts it (exactly once); get removes '
+              'the request before it sweeps, so an answered request is not reported. Tied to correlator.py on a virtual clock '
+              'with responses/probes at ttl-1, ttl, ttl+1 quanta and many outstanding requests. That a probe is in fact sent '
+              'every enquire_link_interval is C16 (session model).'),
+        note=COMMON_NOTE + 'time.monotonic replaced by a virtual clock in quanta of 1/1024 s (floats exact). Operations are atomic here; a hook that suspends inside _remove_expired is a session-level interleaving.',
+        technique='Lean 4 theorems (induction over the key snapshot of the sweep, frame lemmas); differential correspondence on a virtual clock'),
 }
